@@ -5,6 +5,7 @@ About the dispatch programs of `Server.readPacket` and the cookie functions as r
 source, and the expected reader actions (tied to the code by `C02_readers_as_expected`).
 -/
 import HopModel.Props.C02
+import HopModel.Model.TimeWindow
 namespace Handshake
 open Generated
 
@@ -72,3 +73,35 @@ example : Generated.transport_HiddenModeTimestampExpiration = 5 := by decide
 example : Generated.transport_PQCookieLen = 32 + Generated.transport_PQSharedSecretLen := by decide
 
 end Handshake
+
+/-! ### the timestamp window on machine integers -/
+
+namespace TimeWindow
+
+/-- For every 64-bit timestamp an adversary can put into a request and every clock reading that is
+not negative, the code's condition rejects exactly the stamps that are in the future or older than
+the expiration: nothing wraps around. -/
+theorem C19_time_window_exact (ts now : BitVec 64) (hnow : now.toNat < 2 ^ 63) :
+    rejects ts now = false ↔ fresh ts.toNat now.toNat := by
+  unfold rejects fresh expiration
+  simp only [Bool.or_eq_false_iff, BitVec.ult, BitVec.slt, decide_eq_false_iff_not,
+    BitVec.toInt_eq_toNat_cond, BitVec.toNat_sub, BitVec.toNat_ofNat]
+  constructor
+  · rintro ⟨h1, h2⟩
+    omega
+  · rintro ⟨h1, h2⟩
+    omega
+
+/-- the obligations that tie the theorem to the source: the condition text the model gives a
+meaning to, and the constant -/
+example : Generated.transport_HiddenModeTimestampExpiration = expiration := by decide
+
+/-- why the conversions matter: with signed comparisons on both sides a stamp of 2^63 passes for ever -/
+example : rejectsSigned (BitVec.ofNat 64 (2 ^ 63)) (BitVec.ofNat 64 1790000000) = false := by decide
+example : rejects (BitVec.ofNat 64 (2 ^ 63)) (BitVec.ofNat 64 1790000000) = true := by decide
+example : fresh 1789999996 1790000000 ∧ rejects (BitVec.ofNat 64 1789999996) (BitVec.ofNat 64 1790000000) = false := by
+  constructor
+  · unfold fresh expiration; omega
+  · decide
+
+end TimeWindow
